@@ -87,4 +87,91 @@ class C19(Plugin):
         return h
 
 
-PLUGIN = C19()
+class C19Both(C19):
+    """first half: TimeoutLayer in virtual time (list cases); cleanup half: a timed-out pooled request is the
+    Cancel operation of the pool model at any stage, judged by the C03 monitor (nothing after the cancel,
+    every other request and a fresh probe resolve after the closing procedure) (dict cases)"""
+    rule = C19.rule + (" || cleanup half: pool histories (harness/src/bin/pool.rs) in which requests are cancelled (= the timeout "
+                       "future dropping its inner future) while waiting for their own dial, waiting on another request's dial, "
+                       "connected-not-yet-polled, and holding a connection, followed by the closing procedure and a probe; model "
+                       "and implementation compared after every operation, judged by mon_C03")
+    coq_targets = ("timeout/Corr.vo", "pool/Corr.vo")
+    extra_bins = ("pool",)
+
+    def header_for(self, case):
+        return self.pool.header_for(case) if isinstance(case, dict) else self.header
+
+    def __init__(self):
+        import p_pool
+        self.pool = p_pool.make("C03")
+        self.pool.prop = "C19"
+        self.trusted = C19.trusted + self.pool.trusted
+
+    def corpus(self):
+        return self.pool.corpus()
+
+    def generate(self, tier, rng):
+        a, meta = C19.generate(self, tier, rng)
+        n = 250 if tier == "quick" else 8000
+        b = []
+        import p_pool
+        for _ in range(n):
+            c = self.pool.gen_case(rng, tier)
+            if not c.get("drained"):
+                nreq = sum(1 for x in c["ops"] if x[0] == "I")
+                c["drained"] = [c["ops"][0][1], rng.choice([1, 2])]
+                c["ops"] = c["ops"] + p_pool.drain_ops(nreq, c["drained"][0], c["drained"][1])
+            # make sure there is a cancel at a random position of the body
+            body_len = len(c["ops"]) - len(p_pool.drain_ops(sum(1 for x in c["ops"] if x[0] == "I") - 1, 0, 1))
+            nreq_body = sum(1 for x in c["ops"][:body_len] if x[0] == "I")
+            if nreq_body and not any(x[0] == "X" for x in c["ops"][:body_len]):
+                pos = rng.randrange(1, body_len + 1)
+                nb = sum(1 for x in c["ops"][:pos] if x[0] == "I")
+                if nb:
+                    c["ops"].insert(pos, ["X", rng.randrange(nb)])
+            b.append(c)
+        meta["rule"] += f" + {n} pool histories with cancels, closing procedure and probe"
+        return a + b, meta
+
+    def evaluate(self, cases):
+        ia = [i for i, c in enumerate(cases) if not isinstance(c, dict)]
+        ib = [i for i, c in enumerate(cases) if isinstance(c, dict)]
+        obss = [None] * len(cases)
+        mism, monf = [], []
+        if ia:
+            o, m, f = C19.evaluate(self, [cases[i] for i in ia])
+            for j, i in enumerate(ia):
+                obss[i] = o[j]
+            mism += [ia[j] for j in m]
+            monf += [ia[j] for j in f]
+        if ib:
+            o, m, f = self.pool.evaluate([cases[i] for i in ib])
+            for j, i in enumerate(ib):
+                obss[i] = o[j]
+            mism += [ib[j] for j in m]
+            monf += [ib[j] for j in f]
+        return obss, sorted(mism), sorted(monf)
+
+    def impl_line(self, c):
+        return self.pool.impl_line(c) if isinstance(c, dict) else C19.impl_line(self, c)
+
+    def coq_case(self, c):
+        return self.pool.coq_case(c) if isinstance(c, dict) else C19.coq_case(self, c)
+
+    def shrinks(self, c):
+        return self.pool.shrinks(c) if isinstance(c, dict) else C19.shrinks(self, c)
+
+    def nontrivial_key(self, c, o):
+        return self.pool.nontrivial_key(c, o) if isinstance(c, dict) else C19.nontrivial_key(self, c, o)
+
+    def sample_json(self, c, o):
+        return self.pool.sample_json(c, o) if isinstance(c, dict) else {"case": c, "impl": o}
+
+    def histogram(self, cases, obss):
+        a = [(c, o) for c, o in zip(cases, obss) if not isinstance(c, dict)]
+        b = [(c, o) for c, o in zip(cases, obss) if isinstance(c, dict)]
+        return {"timeout_layer": C19.histogram(self, [x[0] for x in a], [x[1] for x in a]),
+                "pool_cleanup": self.pool.histogram([x[0] for x in b], [x[1] for x in b])}
+
+
+PLUGIN = C19Both()
